@@ -431,7 +431,7 @@ type execCtx struct {
 func groupCfg(job *spec.Job, c *spec.Call, r *spec.Resolution) (simrt.GroupCfg, error) {
 	cfg := simrt.GroupCfg{
 		Adv: r.Adv, AdvSeed: r.AdvSeed, T0: r.T0, Entropy: r.Entropy,
-		TickBudget: job.Budgets.Ticks, DepthBudget: job.Budgets.Depth, ByteBudget: job.Budgets.Bytes,
+		TickBudget: job.Budgets.Ticks, FrameBudget: job.Budgets.Frame, DepthBudget: job.Budgets.Depth, ByteBudget: job.Budgets.Bytes,
 		PanicAtTick: c.PanicAtTick, RecordPerms: job.RecordPerms, NSites: nSites,
 	}
 	if cfg.Adv == "" {
@@ -472,6 +472,10 @@ func prepare(ec *execCtx, c *spec.Call, a *args, g *simrt.Group, mon *recMon) (b
 	finish = func(t *simrt.Task) spec.Outcome {
 		oc.Ticks = g.Ticks
 		oc.Depth = g.MaxDepth
+		oc.Frame = g.MaxFrame
+		if g.MaxFrameFn < len(simrt.FuncNames) {
+			oc.FrameFn = simrt.FuncNames[g.MaxFrameFn]
+		}
 		oc.Bytes = g.PeakBytes
 		oc.Trace = strconv.FormatUint(g.Trace(), 16)
 		oc.ClockReads = g.ClockReads
@@ -559,6 +563,11 @@ func runOne(ec *execCtx, c *spec.Call, a *args, r *spec.Resolution, mon *recMon)
 	t := s.AddRoot(g, body)
 	s.Run()
 	oc := finish(t)
+	if oc.Bytes > 128<<20 || oc.Verdict == "BUDGET" {
+		// do not let this run's garbage count against the next run's live-heap budget
+		runtime.GC()
+		debug.FreeOSMemory()
+	}
 	if s.Dead != nil && oc.Verdict == "" {
 		oc.Verdict = "DEADLOCK"
 		oc.Detail = s.Dead.Msg
